@@ -139,8 +139,27 @@ fn rewind_header(dir: &Path, to: u64) -> std::io::Result<()> {
     Ok(())
 }
 
+/// open finding shared with C01: a compaction that runs concurrently with applies can produce a snapshot whose index
+/// and content disagree, so after a restart entries are applied twice (config history ids appear twice)
+pub const KNOWN_FUZZY: &str = "C19/duplicate-history-ids-need-compaction-concurrent-with-apply";
+
 pub fn run_case(case: &Case, work: &Path) -> CaseReport {
-    run_case_mode(case, work, false)
+    let r = run_case_mode(case, work, false);
+    if let Verdict::Violation(_) = &r.verdict {
+        if case.steps.iter().any(|s| matches!(s, Step::CompactConcurrent)) && is_open("C19", KNOWN_FUZZY) && std::env::var("RNV_C19_STRICT").is_err() {
+            // recognised by the history: the same steps with every compaction awaited pass
+            let awaited = Case {
+                steps: case.steps.iter().map(|s| if matches!(s, Step::CompactConcurrent) { Step::Compact } else { s.clone() }).collect(),
+                ..case.clone()
+            };
+            if let Verdict::Pass = run_case_mode(&awaited, work, false).verdict {
+                let mut labels = r.labels.clone();
+                labels.push("known_needs_concurrent_compaction".into());
+                return CaseReport { labels, nontrivial: r.nontrivial, verdict: Verdict::Known(KNOWN_FUZZY.into()) };
+            }
+        }
+    }
+    r
 }
 
 /// strict = generate and judge the known shape too (replay of the documenting case)
